@@ -45,6 +45,7 @@ func runC20(r *Run) {
 		c20Stats(r)
 	}
 	c20ServerReset(r)
+	c20RefusedRequest(r)
 	c20WrappedError(r)
 }
 
